@@ -10,6 +10,8 @@ structure St where
   t : Option Htb := none
   c : Cfg := { hash := id }
   raw : Bool := false
+  mv : Hawk.ForIn.Val := .nil     -- `mv ...` lines: the map value driven through the val.c API (harness/mapval_h.c)
+  av : Hawk.ForIn.Val := .nil     -- … and the array value
 
 /-- hawk_htb_dflhash on the 4 little-endian bytes of an int key: FNV-1 style
     `hv = (hv ^ byte) * PRIME` over 64-bit words (hawk-utl.h, HAWK_SIZEOF_OOW_T == 8) -/
@@ -38,7 +40,7 @@ def sizerOf : String → Option (Option (Nat → Nat))
 def parseOrc (s : String) : Oracle := s.toList.filterMap fun c => if c == 's' then some true else if c == 'f' then some false else none
 
 def showErr : Err → String
-  | .enoent => "ENOENT" | .eexist => "EEXIST" | .enomem => "ENOMEM"
+  | .enoent => "ENOENT" | .eexist => "EEXIST" | .enomem => "ENOMEM" | .ecb => "ECB"
 
 def showRet : Except Err Pair → String
   | .ok p => s!"ok({p.1},{p.2})"
@@ -74,9 +76,50 @@ def doIns (s : St) (t : Htb) (opt : Opt) (k v o : String) : St × String :=
     ({ s with t := some r.tb }, s!"r={showRet r.ret} e={showEvs s.raw r.evs} {dump r.tb}")
   | _, _ => (s, "bad-op")
 
+def valPairs : Hawk.ForIn.Val → List (Nat × Nat)
+  | .map l => l
+  | .arr l => l
+  | _ => []
+
+def showIter (v : Hawk.ForIn.Val) : String :=
+  let l := valPairs v
+  s!"{showPairs l} n={l.length}"
+
+def showGet (v : Hawk.ForIn.Val) (k : Nat) : String :=
+  match (valPairs v).find? (fun p => p.1 == k) with
+  | some p => toString p.2
+  | none => "-"
+
+/-- `mv ...`: the language-level containers of HawkModel.ForIn (Val.set / Val.del / iteration order) -/
+def stepMv (s : St) : List String → St × String
+  | ["new"] => ({ s with mv := .map [] }, "ok")
+  | ["anew"] => ({ s with av := .arr [] }, "ok")
+  | ["set", k, v] => match k.toNat?, v.toNat? with
+    | some k, some v => let m := s.mv.set k v; ({ s with mv := m }, s!"ok n={(valPairs m).length}")
+    | _, _ => (s, "bad-op")
+  | ["get", k] => match k.toNat? with
+    | some k => (s, showGet s.mv k)
+    | none => (s, "bad-op")
+  | ["del", k] => match k.toNat? with
+    | some k =>
+      let m := s.mv.del k
+      ({ s with mv := m }, s!"{if (valPairs m).length < (valPairs s.mv).length then "ok" else "ENOENT"} n={(valPairs m).length}")
+    | none => (s, "bad-op")
+  | ["clear"] => ({ s with mv := s.mv.reset }, "ok n=0")
+  | ["iter"] => (s, showIter s.mv)
+  | ["aset", k, v] => match k.toNat?, v.toNat? with
+    | some k, some v => ({ s with av := s.av.set k v }, "ok")
+    | _, _ => (s, "bad-op")
+  | ["aget", k] => match k.toNat? with
+    | some k => (s, showGet s.av k)
+    | none => (s, "bad-op")
+  | ["aiter"] => (s, showIter s.av)
+  | _ => (s, "bad-op")
+
 def step (s : St) (line : String) : St × String :=
   match words line, s.t with
   | "prog" :: toks, _ => (s, Hawk.Drv.ForIn.runProg toks)
+  | "mv" :: rest, _ => stepMv s rest
   | ["new", capa, factor, style, h, sz, mode], _ =>
     match capa.toNat?, factor.toNat?, style.toNat?, hasherOf h, sizerOf sz with
     | some capa, some factor, some style, some hf, some szf =>
@@ -91,6 +134,17 @@ def step (s : St) (line : String) : St × String :=
   | ["upsert", k, v, o], some t => doIns s t .upsert k v o
   | ["update", k, v, o], some t => doIns s t .update k v o
   | ["ensert", k, v, o], some t => doIns s t .ensert k v o
+  | ["cbsert", k, v, mode, o], some t =>
+    match k.toNat?, v.toNat? with
+    | some k, some v =>
+      -- the harness callback: add = create / replace the stored w by (w+v)%64 in a fresh pair; keep = create / keep; fail
+      let f : Option Nat → CbAns :=
+        if mode == "fail" then fun _ => .fail
+        else if mode == "keep" then fun | none => .fresh v | some _ => .keep
+        else fun | none => .fresh v | some w => .fresh ((w + v) % 64)
+      let r := cbsert s.c t k f (parseOrc o)
+      ({ s with t := some r.tb }, s!"r={showRet r.ret} e={showEvs s.raw r.evs} {dump r.tb}")
+    | _, _ => (s, "bad-op")
   | ["delete", k], some t =>
     match k.toNat? with
     | some k =>
@@ -99,7 +153,7 @@ def step (s : St) (line : String) : St × String :=
     | none => (s, "bad-op")
   | ["search", k], some t =>
     match k.toNat? with
-    | some k => (s, s!"r={showRet (search s.c t k)} e= n={t.size}")
+    | some k => (s, s!"r={showRet (search s.c t k)} e= n={t.size} c={t.capa}")
     | none => (s, "bad-op")
   | ["clear"], some t =>
     let (t', e) := clear t
